@@ -97,11 +97,61 @@ Proof.
     pose proof (id_rec_touched _ _ T (H x a Ea)) as H0. intros Hne. rewrite Hs in Hne. eapply has_id_dyn; [exact Hd|exact (H0 Hne)].
 Qed.
 
+(** Loader.restore_placement for one recorded instance *)
+Lemma restore_put_other c sn an vb ex x : x <> an -> app_of (fst (restore_put c sn an vb ex)) x = app_of c x.
+Proof.
+  intros Hne. unfold restore_put. destruct vb; [apply srv_restore_app; exact Hne|].
+  destruct (get_app an (c_apps c)) as [a|]; [|reflexivity]. destruct (a_once a); [reflexivity|].
+  destruct (srv_put c sn an) as [c'|] eqn:E; [|reflexivity]. cbn [fst].
+  destruct (srv_put_frame _ _ _ _ E) as [_ Hf]. apply Hf. exact Hne.
+Qed.
+Lemma restore_put_fail c sn an vb ex : snd (restore_put c sn an vb ex) = false -> IdRec c -> IdRec (fst (restore_put c sn an vb ex)).
+Proof.
+  unfold restore_put. destruct vb.
+  - unfold srv_restore. destruct (get_app an (c_apps c)) as [a|]; [|tauto].
+    destruct (srv_put_lease c sn an 0); cbn [fst snd]; [discriminate|]. intros _. apply IdRec_upd_app. intros z; repeat split.
+  - destruct (get_app an (c_apps c)) as [a|]; [|tauto]. destruct (a_once a); [tauto|].
+    destruct (srv_put c sn an); cbn [fst snd]; [discriminate|tauto].
+Qed.
+Lemma force_other c an i x : x <> an -> app_of (force_identity c an i) x = app_of c x.
+Proof.
+  intros Hne. unfold force_identity. destruct i as [i|]; [|reflexivity]. destruct (get_app an (c_apps c)) as [a|]; [|reflexivity].
+  destruct (group_of c a) as [[g grp]|]; [|reflexivity]. unfold app_of. cbn [c_upd_app c_apps c_groups set].
+  apply get_upd_app_other; [reflexivity|exact Hne].
+Qed.
+
+Lemma IdRec_restore_op c sn an vb ex ident :
+  wf_op_id c (ORestore sn an vb ex ident) -> Acct c -> Ident c -> IdRec c -> IdRec (restore_op c sn an vb ex ident).
+Proof.
+  intros Hwf HA HI H. unfold restore_op. destruct (get_app an (c_apps c)) as [a|] eqn:Ea; [|exact H].
+  pose proof (Acct_psteps _ _ (restore_put_ps c sn an vb ex) HA) as HA1.
+  pose proof (Ident_psteps _ _ (restore_put_ps c sn an vb ex) HI) as HI1.
+  pose proof (restore_put_eqi c sn an vb ex) as [_ Hq].
+  pose proof (restore_put_fail c sn an vb ex) as Hfail.
+  pose proof (fun x => restore_put_other c sn an vb ex x) as Hoth.
+  destruct (restore_put c sn an vb ex) as [c1 ok]. cbn [fst snd] in *.
+  destruct ok.
+  - intros x a2 Ha2. destruct (Z.eq_dec x an) as [->|Hne].
+    2:{ rewrite force_other in Ha2 by exact Hne. rewrite Hoth in Ha2 by exact Hne. exact (H x a2 Ha2). }
+    intros _. pose proof (get_app_eqi _ _ Hq an) as Q. rewrite Ea in Q.
+    destruct (get_app an (c_apps c1)) as [a1|] eqn:Ea1; [|contradiction]. destruct Q as (_ & Q2 & Q3).
+    cbn [wf_op_id] in Hwf. unfold force_identity in Ha2. destruct ident as [i|].
+    + destruct (Hwf a Ea) as (_ & g & Hg & _). rewrite Ea1 in Ha2.
+      assert (Hgo : exists grp, group_of c1 a1 = Some (g, grp)).
+      { unfold group_of. rewrite <- Q2, Hg. destruct (id_group_exists _ HI1 an a1 g Ea1 (eq_trans (eq_sym Q2) Hg)) as (grp & Hgrp).
+        rewrite Hgrp. eexists; reflexivity. }
+      destruct Hgo as (grp & Hgo). rewrite Hgo in Ha2. unfold app_of in Ha2. cbn [c_upd_app c_apps c_groups set] in Ha2.
+      erewrite get_upd_app_same in Ha2; [|intros z; reflexivity|exact Ea1]. inversion Ha2; subst a2. right. cbn. discriminate.
+    + unfold app_of in Ha2. rewrite Ea1 in Ha2. inversion Ha2; subst a2.
+      destruct (Hwf a Ea) as [G|G]; [left|right]; congruence.
+  - specialize (Hfail eq_refl H). destruct (a_once a); [apply IdRec_remove_app; assumption|exact Hfail].
+Qed.
+
 (** every operation of the alphabet *)
-Theorem IdRec_step c o : wf_op c o -> (forall ch, o = OSchedule ch -> parts_wf c) ->
+Theorem IdRec_step c o : wf_op c o -> wf_op_id c o -> (forall ch, o = OSchedule ch -> parts_wf c) ->
   Acct c -> Ident c -> IdRec c -> IdRec (step c o).
 Proof.
-  intros Hwf Hpw HA HI H. destruct o; cbn [step].
+  intros Hwf Hwi Hpw HA HI H. destruct o; cbn [step].
   - unfold add_bucket. eapply IdRec_same_core; [apply attach_common_sc|]. revert H. apply IdRec_ext; reflexivity.
   - unfold add_server, new_server. cbn [s_parent]. eapply IdRec_same_core; [apply attach_common_sc|].
     revert H. apply IdRec_ext; reflexivity.
@@ -136,4 +186,5 @@ Proof.
   - revert H; apply IdRec_ext; reflexivity.
   - pose proof (IdRec_schedule c choices HA HI (Hpw choices eq_refl) H) as H1.
     destruct (schedule c choices) as [[c' qs] pl]. exact H1.
+  - apply IdRec_restore_op; assumption.
 Qed.
